@@ -26,7 +26,8 @@ LEVEL_TEXT = ("Lean 4: the statement's predicate Truthful (npartitions = len(div
               "now include totality), loc_slice_truthful_full (the FULL .loc statement: closed slices, .loc[x:], .loc[:y], .loc[:], "
               "one or several touched partitions; window_truthful; uses the proved spec of _partition_of_index_value), "
               "partitions_truthful (partitions[...] in increasing order), tofewer_truthful (RepartitionToFewer / concatenation of "
-              "contiguous partitions), repartition_divisions_truthful (repartition(divisions=b): both walks of "
+              "contiguous partitions), from_pandas_divisions_truthful (dd.repartition(pandas_frame, divisions): FromPandasDivisions cuts the "
+              "sorted frame at the first position at or after each division; after the fix 4f4a63b), repartition_divisions_truthful (repartition(divisions=b): both walks of "
               "RepartitionDivisions._layer proved, see C44; for frames with partitions in index order), set_index_truthful "
               "(set_partitions_pre + staged task shuffle + per-partition sort, divisions spanning the data; proved in C40, also "
               "for the presorted shortcut), concat_monotonic_truthful (concat of frames with ordered, non-overlapping ranges: "
@@ -363,7 +364,38 @@ def case_concat_divs(ctx, inp):
             ctx.fail("concat of frames with overlapping ranges reports known divisions without interleaving", observed=divs)
 
 
-CASES = {"pipeline": case_pipeline, "locslice_divs": case_locslice_divs, "partitions_divs": case_partitions_divs,
+def case_pandas_divs(ctx, inp):
+    """dd.repartition(pandas_frame, divisions) (FromPandasDivisions): partition lengths vs the model's locations,
+    divisions as given, truthful, rows of the sorted frame in order (from_pandas_divisions_truthful)"""
+    import dask
+    import pandas as pd
+    dd = U.dd()
+    idx, b = inp["index"], inp["b"]
+    df = pd.DataFrame({"v": list(range(len(idx)))}, index=pd.Index(idx, dtype="int64"))
+    with dask.config.set(scheduler="sync"):
+        try:
+            r = dd.repartition(df, b)
+            divs = [int(x) for x in r.divisions]
+            parts = U.partitions(r)
+        except Exception as e:  # noqa: BLE001
+            ctx.fail("dd.repartition(pandas frame, divisions) raised: " + U.exc_name(e), observed=U.exc_name(e))
+            return
+    sdf = df.sort_index(kind="stable")
+    ctx.eq("FromPandasDivisions divisions", divs, list(b))
+    locs = ctx.lean(Sym("pandas-div-locs"), [int(k) for k in sdf.index], b)
+    ctx.eq("FromPandasDivisions partition lengths", [y - x for x, y in zip(locs, locs[1:])], [len(p) for p in parts])
+    ctx.branch("pandas-divs-" + ("unique" if len(set(idx)) == len(idx) else "duplicates")
+               + ("-beyond" if any(x > max(idx) for x in b[1:-1]) else ""))
+    why = U.truthful(divs, parts)
+    if why:
+        ctx.fail("dd.repartition(pandas frame, divisions): divisions not truthful: " + why,
+                 observed=[divs, [list(p.index) for p in parts]])
+    got = [int(k) for p in parts for k in p.index]
+    if got != [int(k) for k in sdf.index] or sorted(int(v) for p in parts for v in p.v) != list(range(len(idx))):
+        ctx.fail("dd.repartition(pandas frame, divisions) does not keep the rows (index order)", observed=got)
+
+
+CASES = {"pandas_divs": case_pandas_divs, "pipeline": case_pipeline, "locslice_divs": case_locslice_divs, "partitions_divs": case_partitions_divs,
          "concat_divs": case_concat_divs}
 
 
@@ -453,6 +485,21 @@ def generate(ctx):
             continue
         yield "concat_divs", {"d1": d1, "d2": d2, "k1": U.rand_truthful_parts(rng, d1, maxrows=3),
                               "k2": U.rand_truthful_parts(rng, d2, maxrows=3)}
+    for _ in range(ctx.n(60, 1500)):
+        ln = rng.randint(1, 14)
+        hi = rng.choice([6, 12, 30])
+        idx = rng.sample(range(hi + 1), min(ln, hi + 1)) if rng.random() < 0.5 else [rng.randint(0, hi) for _ in range(ln)]
+        lo_b = min(idx) - rng.choice([0, 0, 1, 3]) if min(idx) >= 3 else min(idx) * (rng.random() < 0.7)
+        hi_b = max(idx) + rng.choice([0, 0, 2, 6])
+        inner = sorted(set(rng.randint(lo_b, hi_b + 2) for _ in range(rng.randint(0, 4))) - {lo_b})
+        b = [lo_b] + [x for x in inner if x < hi_b] + [x for x in inner if x > hi_b][:1]
+        b = sorted(set(b))
+        b = b + [max(b[-1], hi_b) if b[-1] < hi_b else b[-1] + rng.choice([0, 3])]
+        if rng.random() < 0.2:
+            b.append(b[-1])
+        if len(b) < 2 or b != sorted(b) or len(set(b[:-1])) != len(b[:-1]) or b[0] > min(idx) or b[-1] < max(idx):
+            continue
+        yield "pandas_divs", {"index": idx, "b": [int(x) for x in b]}
     for _ in range(ctx.n(200, 3300)):
         nops = rng.choice([0, 1, 1, 1, 2, 2, 3])
         src = _rand_source(rng)
